@@ -135,7 +135,7 @@ def oracle(ctx: Ctx, res) -> None:
 
 
 def run(ctx: Ctx) -> None:
-    total = 350 if ctx.quick else 4500
+    total = 600 if ctx.quick else 4500
     rule_lists = 1 if ctx.quick else 2
     batch = 350
     done = 0
